@@ -364,26 +364,40 @@ func (c hostileCase) run(viol func(sig, detail string), r *core.Run) {
 		c13Diamond(c.Payload, c13Hows[c.Links[0]], viol)
 		return
 	}
-	payloads, menu := c.menus()
-	if c.Payload >= len(payloads) {
-		viol("harness-bad-case", c.String())
-		return
-	}
-	p := payloads[c.Payload]
 	s := store.New()
-	pn := &model.PBNode{}
-	if !p.None {
-		pn.Data, pn.HasData = p.Data, true
+	var root cid.Cid
+	var desc string
+	if c.Family == "handshard" {
+		// hand-written shard DAGs: mixed fanouts, empty child shards, duplicate
+		// slots, bitfields that do not match the links
+		labels := gen.HandShardLabels()
+		if c.Payload >= len(labels) {
+			viol("harness-bad-case", c.String())
+			return
+		}
+		desc = labels[c.Payload]
+		root, _ = gen.HandShards()[desc].Build(s)
+	} else {
+		payloads, menu := c.menus()
+		if c.Payload >= len(payloads) {
+			viol("harness-bad-case", c.String())
+			return
+		}
+		p := payloads[c.Payload]
+		pn := &model.PBNode{}
+		if !p.None {
+			pn.Data, pn.HasData = p.Data, true
+		}
+		desc = p.Label
+		for _, li := range c.Links {
+			l := menu[li]
+			pn.Links = append(pn.Links, model.PBLink{Cid: hostileTargets[l.Target](s), Name: l.Name, HasName: l.HasName, Tsize: l.Tsize, HasTsize: l.HasTsize})
+			desc += " [" + l.Label + "]"
+		}
+		rootBytes := model.EncodePB(pn)
+		root, _ = gen.V1PB.Sum(rootBytes)
+		s.Put(root, rootBytes)
 	}
-	desc := p.Label
-	for _, li := range c.Links {
-		l := menu[li]
-		pn.Links = append(pn.Links, model.PBLink{Cid: hostileTargets[l.Target](s), Name: l.Name, HasName: l.HasName, Tsize: l.Tsize, HasTsize: l.HasTsize})
-		desc += " [" + l.Label + "]"
-	}
-	rootBytes := model.EncodePB(pn)
-	root, _ := gen.V1PB.Sum(rootBytes)
-	s.Put(root, rootBytes)
 	ls := lsFor(s)
 	// step budget: 64*(1+E), E = size of the tree expansion (<= 1 + 3*(1+2*(1+1)) here)
 	const budget = 64 * 40
@@ -592,6 +606,9 @@ func runC13(r *core.Run) {
 		for _, l := range otherLists {
 			cases = append(cases, hostileCase{Family: "other", Payload: p, Links: l})
 		}
+	}
+	for i := range gen.HandShardLabels() {
+		cases = append(cases, hostileCase{Family: "handshard", Payload: i})
 	}
 	// deep chains along a name's real hash path: at, just below and beyond the
 	// depth a 64-bit hash can address
